@@ -189,7 +189,7 @@ Proof.
   apply nores_same; auto. exists []. split; auto.
 Qed.
 Lemma nores_uptime s : nores s (fst (uptime_msec s)).
-Proof. unfold uptime_msec, uptime_usec. cbn [fst]. apply nores_same; [reflexivity|exists []; split; reflexivity|reflexivity]. Qed.
+Proof. unfold uptime_msec, uptime_usec. cbn [fst]. apply nores_same; [reflexivity|eexists [_]; split; reflexivity|reflexivity]. Qed.
 Lemma nores_cb_slot c a s : nores s (cb_slot c a s).
 Proof.
   unfold cb_slot. destruct (active _); [|apply nores_refl].
